@@ -134,10 +134,49 @@ package wal
 //@   modifies cbCount(self)
 
 //@ func (*Replayer).Replay
-//@   props C07 C13
+//@   props C07 C13 C19
 //@   replay wal_model
 //@   bounded wal_model replay after a kill: all programs of <= 3 (thorough: 4) steps over Append/AppendSync/Rotate x 4 record kinds (empty, small, larger than the size limit, larger than the write buffer) x 3 size limits; the directory as left after every step and with the newest file cut at 9 points (thorough: every length) back to the last returned synchronous append; writer creation faults at each rotation
 //@   requires r.walOptions != nil
+//@   call 0 of ReaderI.Open: assert [C19:reader-registered-for-close-before-it-is-opened] len(toClose) > 0 && toClose[len(toClose) - 1] == recv
+//@   exit [C19:every-registered-reader-closed] called(sort.Strings, 0) ==> forall j :: 0 <= j && j < len(toClose) ==> rdClosed(toClose[j])
+//@   loop Replay$2:0
+//@     invariant [C19:closed-so-far] forall j :: 0 <= j && j < iter && j < len(toClose) ==> rdClosed(toClose[j])
 //@   call 3 of fmt.Errorf: assert [torn-tail-of-the-newest-file-is-not-an-error] !(i == len(walFiles) - 1 && errIs(callres(ReaderI.ReadNext, 0, 1), io.ErrUnexpectedEOF))
 //@   call 2 of fmt.Errorf: assert [headerless-newest-file-is-not-an-error] !(i == len(walFiles) - 1 &&
 //@        (errIs(callres(ReaderI.Open, 0, 0), io.EOF) || errIs(callres(ReaderI.Open, 0, 0), io.ErrUnexpectedEOF)))
+
+// ---------------------------------------------------------------------------------------------------
+// Log constructors and options as the database sees them (functional options, not verified against the bodies).
+//@ func BasePath
+//@   assumed
+//@   modifies nothing
+//@ func MaximumWalFileSizeBytes
+//@   assumed
+//@   modifies nothing
+//@ func WriterFactory
+//@   assumed
+//@   modifies nothing
+//@ func ReaderFactory
+//@   assumed
+//@   modifies nothing
+//@ func NewWriteAheadLogOptions
+//@   assumed
+//@   ensures r1 == nil ==> r0 != nil
+//@   fresh r0
+//@   modifies nothing
+//@ func NewReplayer
+//@   assumed
+//@   ensures r1 == nil ==> r0 != nil
+//@   fresh r0
+//@   modifies nothing
+//@ func NewWriteAheadLog
+//@   assumed
+//@   ensures r1 == nil ==> r0 != nil && walCount(r0) == 0
+//@   fresh r0
+//@   modifies nothing
+
+// Replay as its callers see it: the callback decides what changes (its captured variables are havocked by the verifier),
+// here: the memstore contents the database's callback writes.
+//@ iface WriteAheadLogReplayI.Replay
+//@   modifies mst(*), mvl(*)
